@@ -60,6 +60,15 @@ def route_grammars(R):
                 R.Rule('Space', R.Regex(r'\s+'), ignored=True)]
     G.append(('class-start-ignore', class_start, {}))
 
+    def class_start_const():
+        # the start class begins with a constant `let` member (a bare literal): the leading skip still
+        # comes before anything is matched
+        return [R.Class('Start', [R.Rule('kind', R.Str('doc'), omitted=True), R.Rule('a', R.Str('x')),
+                                  R.Rule('b', R.Ref('X'))]),
+                R.Rule('X', R.Regex('b+')),
+                R.Rule('Space', R.Regex(r'\s+'), ignored=True)]
+    G.append(('class-start-const-ignore', class_start_const, {}))
+
     def classes():
         req = R.Rule(None, R.Where(R.Py('None'), R.Py('lambda _: zf != g')), omitted=True)
         return [R.Rule('start', R.Ref('K')),
@@ -106,7 +115,12 @@ def route_grammars(R):
                 R.Rule('Number', R.Regex('[0-9]+')),
                 R.Rule('Listing', R.Right(R.Str('['), R.Ref('Item')), params=['Item']),
                 R.Rule('L2', R.Let('Item', R.Str('a'), R.Right(R.Str('='), R.Ref('Item')))),
-                R.Class('CP', [R.Rule('v', R.Ref('Number'))], params=['Number'])]
+                R.Class('CP', [R.Rule('v', R.Ref('Number'))], params=['Number']),
+                # the same argument text where `Item` is a rule and where it is a parameter
+                R.Rule('Parens', R.Right(R.Str('('), R.Ref('p')), params=['p']),
+                R.Rule('Plain', R.Call(R.Ref('Parens'), [R.Left(R.Ref('Item'), R.Str(';'))])),
+                R.Rule('Tagged', R.Call(R.Ref('Parens'), [R.Left(R.Ref('Item'), R.Str(';'))]), params=['Item']),
+                R.Rule('Tagged2', R.Call(R.Ref('Parens'), [R.Left(R.Ref('Item'), R.Str(';'))]), params=['Item'])]
     G.append(('shadow', shadow, {}))
 
     def deep():
@@ -821,7 +835,12 @@ def context_wiring(mod, bad, stats):
             if v.attr not in passigned:
                 bad('WIRE-super', f'{mod.label}: `_ctx.{a} = _super_ctx.{v.attr}`: the parent context has no '
                                   f'{v.attr} (it has {sorted(passigned)})')
-    # no store through the parent's context
+    # no store through the parent's context, nor through any object imported from an ancestor
+    # (inherited rules and classes are the ancestor's own objects, shared by reference)
+    imported = set()
+    for n in mod.tree.body:
+        if isinstance(n, ast.ImportFrom):
+            imported |= {a.asname or a.name for a in n.names}
     for n in ast.walk(mod.tree):
         if isinstance(n, (ast.Attribute, ast.Subscript)) and isinstance(n.ctx, (ast.Store, ast.Del)):
             r = n
@@ -829,6 +848,13 @@ def context_wiring(mod, bad, stats):
                 r = r.value
             if isinstance(r, ast.Name) and r.id == '_super_ctx':
                 bad('WIRE-parent-readonly', f'{mod.label}: stores through the parent context ({ast.unparse(n)})')
+            elif isinstance(r, ast.Name) and r.id in imported and mod.sub:
+                bad('WIRE-parent-readonly', f'{mod.label}: stores into `{r.id}`, an object imported from the base '
+                                            f'grammar ({ast.unparse(n)}): compiling or using the sub-grammar changes '
+                                            f'the behaviour of the base module')
+        if isinstance(n, ast.Call) and isinstance(n.func, ast.Name) and n.func.id in ('setattr', 'delattr') \
+                and n.args and isinstance(n.args[0], ast.Name) and n.args[0].id in imported | {'_super_ctx'} and mod.sub:
+            bad('WIRE-parent-readonly', f'{mod.label}: {ast.unparse(n)[:60]} modifies an object of the base grammar')
 
 
 def free_names(mod, bad, stats):
@@ -1287,6 +1313,79 @@ ROUTE_PROPS = [
 ]
 
 
+def helper_prefix():
+    """literal prefix of the names `Expression.functionalize` gives its helper functions (read off the
+    f-string in the generator, so that renaming the helpers does not blind the rules)"""
+    if 'helper_prefix' in _cache:
+        return _cache['helper_prefix']
+    pre = '_parse_function_'
+    try:
+        tree = load.parse('sourcer/expressions/base.py')
+        for fname, fn in load.functions_of(tree).items():
+            if fname.endswith('functionalize'):
+                for n in ast.walk(fn):
+                    if isinstance(n, ast.Assign) and isinstance(n.value, ast.JoinedStr) and n.value.values \
+                            and isinstance(n.value.values[0], ast.Constant) \
+                            and any(isinstance(v, ast.FormattedValue) and 'program_id' in ast.unparse(v.value)
+                                    for v in n.value.values):
+                        pre = n.value.values[0].value
+    except AnalysisError:
+        pass
+    _cache['helper_prefix'] = pre
+    return pre
+
+
+def argument_captures(m, bad, stats):
+    """A compound template argument is compiled into a helper function; the names of the enclosing
+    body it uses (parameters, let variables, fields: its free variables in the grammar skeleton) are
+    handed to that helper at the place of the call - `_ParseFunction(helper, (names...), ())`.
+    Expected captures come from the skeleton objects, found captures from the emitted rule function:
+    a helper shared between two places where the same text binds differently captures nothing."""
+    body = getattr(m, 'body', None)
+    if not body:
+        return
+    R, _ = emitted_modules()
+    hp = helper_prefix()
+    for top in body:
+        if not isinstance(top, M.Obj) or top.cls.name not in ('Rule', 'Class') or not top.d.get('name'):
+            continue
+        want = []
+        for o in walk_objs(top):
+            if o.cls.name != 'Call':
+                continue
+            for a in o.d.get('args') or []:
+                e = a.d.get('expr') if isinstance(a, M.Obj) and a.cls.name == 'KeywordArg' else a
+                if not isinstance(e, M.Obj) or e.cls.name in ('Ref', 'Str', 'Byte', 'PythonExpression', 'Call'):
+                    continue
+                try:
+                    fv = R.it.call(R.it.getattr(e, 'freevars'), [], {})
+                except M.MetaRaise:
+                    continue
+                if fv:
+                    want.append(tuple(sorted(fv)))
+        if not want:
+            continue
+        fn = functions_top(m.tree).get(impl(top.d['name']))
+        if fn is None:
+            continue
+        got = []
+        for n in ast.walk(fn):
+            if isinstance(n, ast.Call) and isinstance(n.func, ast.Name) and n.func.id == '_ParseFunction' \
+                    and len(n.args) >= 2 and isinstance(n.args[0], ast.Name) and n.args[0].id.startswith(hp) \
+                    and isinstance(n.args[1], ast.Tuple):
+                got.append(tuple(ast.unparse(x) for x in n.args[1].elts))
+        stats['argument_captures'] = stats.get('argument_captures', 0) + len(want)
+        missing = list(want)
+        for g in got:
+            if g in missing:
+                missing.remove(g)
+        for w in missing:
+            bad('ARG-captures', f'{m.label}: {impl(top.d["name"])} passes a compound argument that uses the local '
+                                f'name(s) {list(w)}, but no helper in it is given them (found captures: {got}): '
+                                f'inside the argument the name denotes something else than the value bound in '
+                                f'this invocation')
+
+
 def temp_allocation_unique(m, bad, stats):
     """Every temporary the builder hands out while a module is emitted ends up in a function of its
     own or under a name of its own: if a name was handed out k times it must be stored in at least
@@ -1335,7 +1434,7 @@ def route_failures(pid, rep):
                                     getattr(exc, 'where', '') or 'sourcer/translator.py'))
 
 
-def run(rep, pid, rules, label_filter=None):
+def run(rep, pid, rules, label_filter=None, always=()):
     """run the module-level route rules; add findings whose rule id starts with one of `rules`"""
     R, mods = emitted_modules()
     stats = {k: 0 for k in ('callsites', 'entries', 'ctx_reads', 'globals', 'literals', 'ignore_modules',
@@ -1353,6 +1452,7 @@ def run(rep, pid, rules, label_filter=None):
         context_wiring(m, bad, stats)
         free_names(m, bad, stats)
         temp_allocation_unique(m, bad, stats)
+        argument_captures(m, bad, stats)
     ignore_distribution(R, bad, stats)
     start_prefix_and_ignored_rule(R, mods, bad, stats)
     route_ignored_sets(R, bad, stats)
@@ -1369,8 +1469,9 @@ def run(rep, pid, rules, label_filter=None):
     for k, v in stats.items():
         if v:
             rep.count(f'route facts: {k}', v)
+    # `always`: rules selected on every route, whatever the label filter says
     sel = [(r, msg) for r, msg in found if r.startswith(tuple(rules))
-           and (label_filter is None or label_filter(msg))]
+           and (label_filter is None or label_filter(msg) or r.startswith(tuple(always) or ('\0',)))]
     rep.obligations += nmods * len(rules)
     rep.discharged += nmods * len(rules) - len({(r, msg.split(': ')[0]) for r, msg in sel})
     for rule, msg in sel:
